@@ -183,6 +183,28 @@ def check(ctx: Ctx):
     init0 = [n for n in ac.node.body if isinstance(n, ast.Assign) and norm(n.targets[0]) == "cost" and norm(n.value) == "0"]
     ctx.check(len(rets) == 1 and norm(rets[0].value) == "cost" and len(init0) == 1, "R-ONCE", "cost starts at 0 and is returned", ac, rets[0] if rets else ac.node,
               "assignment_cost returns the accumulated cost")
+    # extra keyword values only fill gaps: the assignment is never rebound, and **kwargs is only read as the fallback of a failed assignment[...] lookup of the same key
+    kwn = ac.node.args.kwarg.arg if ac.node.args.kwarg else None
+    rebound = [a for a in ast.walk(ac.node) if isinstance(a, (ast.Assign, ast.AugAssign, ast.AnnAssign)) and any(isinstance(t, ast.Name) and t.id == p_a for t in (a.targets if isinstance(a, ast.Assign) else [a.target]))]
+    okk = kwn is not None and not rebound
+    badk = rebound[0] if rebound else None
+    if okk:
+        for n in ast.walk(ac.node):
+            if isinstance(n, ast.Name) and n.id == kwn and isinstance(n.ctx, ast.Load):
+                in_fallback = False
+                for t in ast.walk(ac.node):
+                    if isinstance(t, ast.Try):
+                        for h in t.handlers:
+                            if any(x is n for x in ast.walk(h)) and h.type is not None and "KeyError" in norm(h.type):
+                                keys_try = {norm(x.slice) for b in t.body for x in ast.walk(b) if isinstance(x, ast.Subscript) and norm(x.value) == p_a}
+                                keys_h = {norm(x.slice) for x in ast.walk(h) if isinstance(x, ast.Subscript) and norm(x.value) == kwn}
+                                in_fallback = bool(keys_try) and keys_h <= keys_try
+                    if isinstance(t, ast.If) and any(x is n for b in t.body for x in ast.walk(b)) and " not in " + p_a in norm(t.test):
+                        in_fallback = True
+                if not in_fallback:
+                    okk, badk = False, n
+    ctx.check(okk, "R-ONCE", "keyword values are used only where the assignment has no value for the variable", ac, badk or ac.node,
+              "a value given both in the assignment and as a keyword must be taken from the assignment: merging the keywords over the assignment reverses the precedence")
     dflt = dict(zip(ac.params[len(ac.params) - len(ac.node.args.defaults):], ac.node.args.defaults))
     ctx.check(norm(dflt.get(p_flag, ast.Constant(None))) == "False", "R-ONCE", "variable costs are opt-in", ac, ac.node, "consider_variable_cost must default to False")
 
@@ -191,6 +213,7 @@ _D = "pydcop/dcop/dcop.py"
 _R = "pydcop/dcop/relations.py"
 _O = "pydcop/infrastructure/orchestrator.py"
 VARIANTS = [
+    ("kwargs_merged_over_assignment", "pydcop/dcop/relations.py", "    for c in constraints:\n        filtered_ass = {}\n        for v in c.dimensions:\n            v_name = v.name\n            if consider_variable_cost:", "    if kwargs:\n        assignment = {**assignment, **kwargs}\n    for c in constraints:\n        filtered_ass = {}\n        for v in c.dimensions:\n            v_name = v.name\n            if consider_variable_cost:", "break", "R-ONCE"),
     ("no_reject", _D, "    if len(variables) != len(assignment):\n        raise ValueError(", "    if len(variables) > len(assignment) + 1:\n        raise ValueError(", "break", "R-REJECT"),
     ("hard_ge", _D, "        if r_cost != infinity:\n            cost_soft += r_cost\n        else:\n            cost_hard += 1", "        if r_cost < infinity:\n            cost_soft += r_cost\n        else:\n            cost_hard += 1", "break", "R-DICHOTOMY"),
     ("var_hard_summed", _D, "            if cost_for_val != infinity:\n                cost_soft += cost_for_val\n            else:\n                cost_hard += 1", "            cost_soft += cost_for_val", "break", "R-DICHOTOMY"),
